@@ -223,9 +223,9 @@ func e2eSession(run *vk.Run, srv *vsrv.Server, a e2eArgs, s int) {
 		return
 	}
 	// ---- oracle over the server-side trace ----
-	stored := map[int]bool{}  // extended index (relative to start) of stored packets
-	named := map[int]int{}    // index -> how many times the receive loop named it
-	wnamed := map[int]int{}   // index -> named by the nack writer
+	stored := map[int]bool{} // extended index (relative to start) of stored packets
+	named := map[int]int{}   // index -> how many times the receive loop named it
+	wnamed := map[int]int{}  // index -> named by the nack writer
 	newest := -1
 	ext := func(seq uint16) int { // unwrap around the newest stored
 		ref := newest
